@@ -56,8 +56,12 @@ func cmdCheck(args []string) int {
 	repo := fs.String("repo", "/repo", "")
 	workers := fs.Int("workers", 16, "")
 	verbose := fs.Bool("v", false, "")
+	defer func() { evidenceDir = "evidence" }()
 	only := fs.String("only", "", "restrict to harness entries containing this substring")
 	fs.Parse(args[1:])
+	if filepath.Clean(*repo) != "/repo" {
+		evidenceDir = "out/evidence-other-tree"
+	}
 	if t := os.Getenv("VERIF_TIER"); t != "" && !flagSet(fs, "tier") {
 		*tier = t
 	}
@@ -527,8 +531,8 @@ func cmdCheck(args []string) int {
 		"assumptions": spec.Assumptions, "wall_s": round2(wall.Seconds()), "violations": violations,
 	}
 	eb, _ := json.MarshalIndent(ev, "", " ")
-	os.MkdirAll(filepath.Join(root, "evidence"), 0o755)
-	os.WriteFile(filepath.Join(root, "evidence", id+".json"), eb, 0o644)
+	os.MkdirAll(filepath.Join(root, evidenceDir), 0o755)
+	os.WriteFile(filepath.Join(root, evidenceDir, id+".json"), eb, 0o644)
 
 	if *verbose {
 		sort.Slice(allJobs, func(a, b int) bool { return allJobs[a].wall > allJobs[b].wall })
@@ -567,6 +571,10 @@ func cmdCheck(args []string) int {
 	return 0
 }
 
+// evidenceDir: evidence/ for runs against /repo; runs against another tree (--repo, used by the
+// self-test over seeded changes) must not overwrite it.
+var evidenceDir = "evidence"
+
 func round2(f float64) float64 { return float64(int(f*100+0.5)) / 100 }
 
 func flagSet(fs *flag.FlagSet, name string) bool {
@@ -595,8 +603,8 @@ func writeEvidenceError(root, id, tier string, seed int64, spec CheckSpec, msg s
 		"wall_s":   round2(wall.Seconds()), "violations": 0,
 	}
 	eb, _ := json.MarshalIndent(ev, "", " ")
-	os.MkdirAll(filepath.Join(root, "evidence"), 0o755)
-	os.WriteFile(filepath.Join(root, "evidence", id+".json"), eb, 0o644)
+	os.MkdirAll(filepath.Join(root, evidenceDir), 0o755)
+	os.WriteFile(filepath.Join(root, evidenceDir, id+".json"), eb, 0o644)
 }
 
 // runJobsCollect runs jobs and stores outcome/reach/observe info under id.
